@@ -43,10 +43,30 @@ const (
 	sigCrashWindow = "C10/durable/batch-lost-in-crash-after-delete-before-return"
 )
 
+// not a known finding: the cause-specific signature of a loss among re-split batches (see resplitSibling)
+const sigSharedKey = "C10/exactly-once/lost-after-restart/distinct-batches-share-a-key"
+
+// resplitOf: two DIFFERENT batches with the same number of transactions and the same concatenation of transaction bytes
+func resplitOf(a, b [][]byte) bool {
+	return a != nil && b != nil && len(a) == len(b) && content(a) != content(b) && bytes.Equal(bytes.Join(a, nil), bytes.Join(b, nil))
+}
+
+// resplitSibling: a pending batch with contents c was pending, in this process lifetime, together with a re-split of it
+// (flag per pending entry, set at acceptance, cleared by a reload - like dup)
+func resplitSibling(c string, pending []pend) bool {
+	for _, p := range pending {
+		if p.c == c && p.resplit {
+			return true
+		}
+	}
+	return false
+}
+
 type pend struct {
-	txs [][]byte
-	c   string // canonical content
-	dup bool   // since it was accepted (or last reloaded) another batch with the same contents was pending at the same time
+	txs     [][]byte
+	c       string // canonical content
+	dup     bool   // since it was accepted (or last reloaded) another batch with the same contents was pending at the same time
+	resplit bool   // … a DIFFERENT batch with the same count and the same concatenated bytes was pending at the same time
 }
 
 type monitor struct {
@@ -66,7 +86,7 @@ type monitor struct {
 	restarts        int
 	forgotten       map[string]int // contents reported lost at a restart (and forgotten): must never turn up again
 	stale           bool           // a Delete failed: the datastore holds the record of a handed-out batch (outside the quantifier)
-	off       bool // monitoring suspended (an empty batch was put into a bare queue: not distinguishable from "no batch")
+	off             bool           // monitoring suspended (an empty batch was put into a bare queue: not distinguishable from "no batch")
 
 	lastWrites int // number of atomic writes already probed
 	prevPend   []string
@@ -129,7 +149,16 @@ func (m *monitor) onSubmit(id []byte, txs [][]byte, out string, before map[strin
 		if dup {
 			m.c.Hit("dup-content-pending")
 		}
-		m.pending = append(m.pending, pend{txs: txs, c: c, dup: dup})
+		rs := false
+		for i := range m.pending {
+			if resplitOf(m.pending[i].txs, txs) {
+				m.pending[i].resplit, rs = true, true
+			}
+		}
+		if rs {
+			m.c.Hit("resplit-pending")
+		}
+		m.pending = append(m.pending, pend{txs: txs, c: c, dup: dup, resplit: rs})
 		m.rec[c] = true
 		delete(m.rejected, c)
 	case "skip-empty", "err:id", "err:full", "err:store", "err:ctx", "err:other":
@@ -340,6 +369,11 @@ func (m *monitor) judge(got [][][]byte, pending []pend, report bool, crashHead s
 			if report {
 				crash, dup, ok := m.explain(c, pending, want[c], have[c], crashHead)
 				switch {
+				case !ok && resplitSibling(c, pending):
+					// not a duplicate: a DIFFERENT batch with the same number of transactions and the same concatenated
+					// bytes (other boundaries) is pending at the same time - the two are told apart by nothing but the
+					// per-transaction length fields of the key's hash input
+					m.c.Report(sigSharedKey, "two DIFFERENT accepted batches with the same number of transactions and the same concatenated bytes but different transaction boundaries were pending at the same time, and one of them does not survive a restart: they share one write-ahead record")
 				case !ok:
 					m.c.Report("C10/durable/accepted-batch-lost", "an accepted batch that was not yet handed out does not survive a restart")
 				default:
